@@ -385,6 +385,8 @@ def locked_storages(F, R):
 
 
 def check(F, R, tier):
+    from . import C06
+    C06.open_retry_is_bounded(F, R)   # a survivor never hangs in open() behind a creator that died mid-initialisation
     ports(F, R)
     builder(F, R)
     cpr = removal(F, R)
